@@ -39,10 +39,11 @@ pub struct Case {
     early_change: Option<(u8, (u16, u16))>,
     /// normal sessions: stop stream k after everything was verified, then change a window of another one
     stop: Option<(u8, (u16, u16))>,
-    lookups: Vec<(u8, u16, u8)>, // stream, selector, sub-ms placement (0: on a message, 1: between, 2: before the first)
+    lookups: Vec<(u8, u16, u8)>, // stream, selector, placement (0: on a message, 1: between, 2: before the first)
+    /// messages 10 s apart: the lifecycle is confirmed after 7 messages, so the rest reaches the server loop
+    /// while parsing runs (2.5 ms apart: everything is held back until the end of the file)
+    slow_clock: bool,
 }
-
-const SPACING_US: u64 = 2500;
 
 fn gen_log(c: &Case) -> Vec<FMsg> {
     let mut fm = vec![];
@@ -182,6 +183,8 @@ fn verify(s: &mut Sess, id: u32, sp: &SSpec, exp: &[usize], wstart: usize, msgs:
 }
 
 fn check(c: &Case, rep: &mut Rep) -> Result<(), String> {
+    #[allow(non_snake_case)]
+    let SPACING_US: u64 = if c.slow_clock { 10_000_000 } else { 2500 };
     let fm = gen_log(c);
     let total = fm.len();
     let sb = Sandbox::new("c16c");
@@ -240,7 +243,7 @@ fn check(c: &Case, rep: &mut Rep) -> Result<(), String> {
     let schedule = match c.throttle % 4 {
         0 if !c.one_pass => None,
         1 => Some((0..40).map(|_| "25:8").collect::<Vec<_>>().join(",")),
-        2 => Some((0..12).map(|_| "100:40").collect::<Vec<_>>().join(",")),
+        2 => Some("7:50,2:40,3:40,5:40,10:40,20:40,40:40,80:40,160:40,320:40".to_string()),
         _ => Some("1:150,7:60,50:60,200:100".to_string()),
     };
     let mut srv = Server::start(&sb.dir, schedule.as_deref())?;
@@ -332,13 +335,15 @@ fn check(c: &Case, rep: &mut Rep) -> Result<(), String> {
                 }
                 let positions: Vec<usize> = if active[k] { refpos[k].clone() } else { (0..total).collect() };
                 if active[k] {
+                    // (a status frame may carry the id the stream had before a window change)
                     let idk = ids[k];
-                    ensure!(s.c.wait_for(Duration::from_secs(20), &|log| log.iter().any(|f| matches!(f, Frame::StreamInfo{id, processed, ..} if *id == idk && *processed as usize >= total))), "stream {} never reported all file messages as processed", idk);
+                    let chain: Vec<u32> = old_ids.iter().filter(|o| o.0 == k).map(|o| o.1).chain(std::iter::once(idk)).collect();
+                    ensure!(s.c.wait_for(Duration::from_secs(20), &|log| log.iter().any(|f| matches!(f, Frame::StreamInfo{id, processed, ..} if chain.contains(id) && *processed as usize >= total))), "stream {} never reported all file messages as processed", idk);
                 }
                 let i = *sel as u64 % (total as u64 + 2);
                 let t_ms = match place {
                     0 => (BASE + i * SPACING_US) / 1000 + if (i * SPACING_US) % 1000 == 0 { 0 } else { 1 },
-                    1 => (BASE + i * SPACING_US) / 1000 + 1,
+                    1 => (BASE + i * SPACING_US + SPACING_US / 2) / 1000,
                     _ => BASE / 1000 - 1 - i,
                 };
                 let r = s.cmd(&format!("stream_binary_search {} time_ms={}", ids[k], t_ms))?;
@@ -352,7 +357,6 @@ fn check(c: &Case, rep: &mut Rep) -> Result<(), String> {
                 if !specs[k].is_query {
                     let r = s.cmd(&format!("stop {}", ids[k]))?;
                     ensure!(r.starts_with("ok:"), "stop refused: {}", r);
-                    let stop_pos = s.c.log.len() - 1;
                     did_stop = true;
                     if let Some(o) = (0..specs.len()).find(|o| *o != k && !specs[*o].is_query) {
                         let w = window(o, w);
@@ -362,9 +366,6 @@ fn check(c: &Case, rep: &mut Rep) -> Result<(), String> {
                         let exp = expect(o, w);
                         verify(&mut s, nid, &specs[o], &exp, w.0, &msgs, "window of another stream after a stop", true)?;
                     }
-                    s.c.pump(Duration::from_millis(80));
-                    let (_, _, _, last) = s.frames_of(ids[k]);
-                    ensure!(last < stop_pos, "frames for stream {} after its stop was acknowledged", ids[k]);
                     let r = s.cmd(&format!("stream_change_window {} 0,5", ids[k]))?;
                     ensure!(r.starts_with("err:"), "stopped stream {} still usable: {}", ids[k], r);
                 }
@@ -397,6 +398,7 @@ fn check(c: &Case, rep: &mut Rep) -> Result<(), String> {
     ensure!(alive && !stderr.contains("panicked"), "server died or panicked: {}", stderr.lines().rev().take(3).collect::<Vec<_>>().join(" / "));
     rep.label_if(c.one_pass, "one_pass_session");
     rep.label_if(c.one_pass && cycles >= 3, "one_pass_ge3_cycles");
+    rep.label_if(!c.one_pass && cycles >= 3, "collect_all_ge3_cycles");
     rep.label_if(c.one_pass && specs.iter().any(|s| !s.binary), "one_pass_text_stream");
     rep.label_if(specs.len() >= 2, "ge2_streams");
     rep.label_if(specs.iter().any(|s| s.is_query) && specs.iter().any(|s| !s.is_query), "stream_and_query");
@@ -435,11 +437,11 @@ pub fn def_sub(tier: Tier) -> Box<dyn DynSub> {
         (prop::bool::weighted(0.45), prop::collection::vec(sspec, 1..4)),
         (0u8..4, prop::bool::weighted(0.2), prop::bool::weighted(0.3), prop::bool::weighted(0.4)),
         (prop::option::weighted(0.35, (any::<u8>(), win.clone())), prop::option::weighted(0.35, (any::<u8>(), win))),
-        prop::collection::vec((any::<u8>(), any::<u16>(), 0u8..3), 0..4),
+        (prop::collection::vec((any::<u8>(), any::<u16>(), 0u8..3), 0..4), prop::bool::weighted(0.75)),
     )
-        .prop_map(|((spec, repeat, noext), (one_pass, streams), (throttle, sort, wait_parsed, pause_first), (early_change, stop), lookups)| Case { spec, repeat, noext, one_pass, streams, throttle, sort, wait_parsed, pause_first, early_change, stop, lookups });
+        .prop_map(|((spec, repeat, noext), (one_pass, streams), (throttle, sort, wait_parsed, pause_first), (early_change, stop), (lookups, slow_clock))| Case { spec, repeat, noext, one_pass, streams, throttle, sort, wait_parsed, pause_first, early_change, stop, lookups, slow_clock });
     sub("concurrent_streams", tier.pick(260, 7_000), case, check)
-        .rates(&[("one_pass_session", 0.3), ("one_pass_ge3_cycles", 0.1), ("one_pass_text_stream", 0.1), ("ge2_streams", 0.5), ("stream_and_query", 0.1), ("early_window_change", 0.05), ("stop_with_others_alive", 0.05), ("lookup_between_messages", 0.1), ("msgs_without_ext_header", 0.1)])
+        .rates(&[("one_pass_session", 0.3), ("one_pass_ge3_cycles", 0.08), ("collect_all_ge3_cycles", 0.08), ("one_pass_text_stream", 0.1), ("ge2_streams", 0.5), ("stream_and_query", 0.1), ("early_window_change", 0.05), ("stop_with_others_alive", 0.05), ("lookup_between_messages", 0.1), ("msgs_without_ext_header", 0.1)])
         .shrink_iters(40)
         .slow()
         .boxed()
